@@ -20,7 +20,7 @@ def main(tier, seed):
     return dbtie.db_check("C07", tier, seed, PROFILE, 650, 6000, "Prop_C07",
                           "user callables and re are an environment the theorems quantify over; the tie instantiates them with the twin table", kwargs_for=kwargs_for,
                           pre=lambda: run_translator("py2coq_index.py", "tinyflux/index.py", "gen/IndexGen.v", refused),
-                          extra_cov={"translator_index_getters": {"source": "tinyflux/index.py: Index.__len__, valid, get_measurements, get_field_keys, get_tag_keys, get_timestamps, get_field_values (and the maintenance methods) -> "
-                                                                            "coq/gen/IndexGen.v (compiled on this run by harness/py2coq_index.py); get_tag_values stays with the hand model",
-                                                                  "refused": refused, "equivalence_theorem": "gen_len_eq, gen_valid_eq, gen_get_measurements_eq, gen_get_timestamps_eq, gen_get_field_values_eq, gen_get_field_keys_eq, gen_get_tag_keys_eq (C07_source_index_*)"}})
+                          extra_cov={"translator_index_getters": {"source": "tinyflux/index.py: Index.__len__, valid, get_measurements, get_field_keys, get_tag_keys, get_timestamps, get_field_values, get_tag_values (and the maintenance methods) -> "
+                                                                            "coq/gen/IndexGen.v (compiled on this run by harness/py2coq_index.py)",
+                                                                  "refused": refused, "equivalence_theorem": "gen_len_eq, gen_valid_eq, gen_get_measurements_eq, gen_get_timestamps_eq, gen_get_field_values_eq, gen_get_field_keys_eq, gen_get_tag_keys_eq, gen_get_tag_values_eq (C07_source_index_*)"}})
 
